@@ -838,6 +838,10 @@ func (self *PathNode) handleChild(in *[]PathNode, lp *int, cp *int, p *thrift.Bi
 		if err := v.scanChildren(p, recurse, opts); err != nil {
 			return nil, err
 		}
+		if opts.NotScanParentNode && len(v.Next) == 0 {
+			// an empty container has no children to be marshalled from: it must keep its own bytes
+			v.Node = self.slice(ss, ss+p.Read, et)
+		}
 		p.Buf = buf
 		p.Read = ss + p.Read
 	}
